@@ -51,6 +51,8 @@ pub enum Mode {
     AllStave,
     /// filtered writing: `-f <link> -o <file>`
     Write(u8),
+    /// a check combined with an output destination that is then ignored: `-f <link> -o <file> check all its`
+    AllItsIgnoredOutput(u8),
 }
 
 #[derive(Clone, Debug)]
@@ -74,6 +76,12 @@ pub fn config(s: &Scn) -> &'static MockConfig {
         Mode::All => c.check = Some(CheckCommands::All(args(None))),
         Mode::AllIts => c.check = Some(CheckCommands::All(args(Some(System::ITS)))),
         Mode::AllStave => c.check = Some(CheckCommands::All(args(Some(System::ITS_Stave)))),
+        Mode::AllItsIgnoredOutput(l) => {
+            c.check = Some(CheckCommands::All(args(Some(System::ITS))));
+            c.filter_link = Some(l);
+            c.output = Some(s.scratch.join("out.raw"));
+            c.output_mode = DataOutputMode::File(s.scratch.join("out.raw").into());
+        }
         Mode::Write(l) => {
             c.filter_link = Some(l);
             c.output = Some(s.scratch.join("out.raw"));
